@@ -347,17 +347,23 @@ pub fn run(ctx: &mut Ctx) {
             let mut rng = Rng::for_case(ctx.seed, "c18-adv", fi as u64, sz as u64);
             let x = adversarial(&mut rng, fi, sz);
             if let Some(steps) = one(ctx, &x, fam) {
-                // a benign family must actually be accepted (otherwise it measures an early exit);
-                // hostile families are rejected today and only have to stay under the bound
+                // a benign family must be well-formed by the reference statement of the policy (otherwise my
+                // construction is wrong and it measures an early exit: harness error). Whether *this tree's*
+                // parser accepts it is C02's business: if it does not, the family is still measured (a
+                // rejection path is validation work too) and the fact is noted.
+                // Hostile families are rejected today and only have to stay under the bound.
                 if fi >= FIRST_HOSTILE {
                     ctx.count(&format!("adv_hostile:{}", fam));
                     pts.push(((x.len() as f64).ln(), (steps.max(1) as f64).ln()));
                 } else if lib_parse(&x).map(|r| r.is_ok()).unwrap_or(false) {
                     ctx.count(&format!("adv_accepted:{}", fam));
                     pts.push(((x.len() as f64).ln(), (steps.max(1) as f64).ln()));
+                } else if crate::model::refparse::accepts(&x) {
+                    ctx.count(&format!("adv_wellformed_but_rejected_by_this_tree:{}", fam));
+                    pts.push(((x.len() as f64).ln(), (steps.max(1) as f64).ln()));
                 } else {
                     ctx.count("harness_error");
-                    ctx.notes.push(format!("harness: adversarial family {} size {} is rejected by the parser", fam, sz));
+                    ctx.notes.push(format!("harness: adversarial family {} size {} is ill-formed by the reference policy", fam, sz));
                 }
                 ctx.sample(|| format!("{} len={} steps={} ratio={:.2}", fam, x.len(), steps, steps as f64 / x.len() as f64));
             }
